@@ -34,7 +34,7 @@ from ..core import ROOT, Ctx, HarnessError, Violation, digest, hyp_run, shard_ru
 PID = "C02"
 LEVEL = "exploration"
 EXHAUSTIVE = False
-RULE = ("per subject (each discovered Serializable class, each registered packer name, CellPayload, one harness "
+RULE = ("[plus histories on one Serializer: a format name re-registered after a decode, a dataclass type offered before its first instance] per subject (each discovered Serializable class, each registered packer name, CellPayload, one harness "
         "dataclass payload): Hypothesis-drawn legal values (boundary-biased integers, empty/large byte strings with "
         "the unit of the length prefix respected, IPv4 / IPv6 / non-literal host names, bit fields, nested and listed "
         "payloads, floats incl. +-0, inf, NaN), each with a drawn start offset 1..32 inside random leading/trailing "
